@@ -323,7 +323,23 @@ def gen_descriptor(seed, profile="general") -> dict:
     for p in prods:  # a start symbol that is itself a zero-weight production is not a meaningful declaration
         if p["name"] == start and p.get("weight") == 0:
             p["weight"] = 1
+    if rng.random() < 0.2:
+        # a production that mentions ITSELF (not its abstract parent) inside a union or a list: a self-loop of the
+        # derivation graph. The union keeps it productive; list[Self] alone has no finite minimum depth in the library.
+        # (never the field-less T* productions: every abstract type keeps one always-feasible shallow alternative)
+        tgt = rng.choice([p for p in prods if p.get("parent") and p["name"].startswith("P")] or [p for p in prods if p["name"].startswith("P")])
+        leafs = [p["name"] for p in prods if not p["fields"] and p["name"] != tgt["name"]]
+        if leafs and len(tgt["fields"]) < 3:
+            shape = rng.choice(["union", "union", "list-union", "tuple-union"])
+            u = ["union", ["ref", tgt["name"]], ["ref", rng.choice(leafs)]]
+            t = u if shape == "union" else (["ann", ["list", u], ["ListSizeBetween", 0, 2]] if shape == "list-union" else ["tuple", u, ["bool"]])
+            tgt["fields"].append([f"f{len(tgt['fields'])}", t])
     desc = {"name": f"{profile}{seed}", "abstracts": abstracts, "prods": prods, "start": start, "expansion": False}
+    if profile == "unproductive-part":
+        # an abstract type without productions, mentioned by one production: that production can never be completed,
+        # the rest of the grammar is fine (Grammar.get_max_node_depth() is "infinite" for such grammars)
+        desc["abstracts"].append({"name": "AX", "parent": None, "style": "abc"})
+        desc["prods"].append({"name": "PX", "parent": names_abs[0], "fields": [["f0", ["ref", "AX"]], ["f1", ["ref", names_abs[0]]]], "dataclass": True})
     if rng.random() < 0.3:  # an unreachable class
         desc["abstracts"].append({"name": "AU", "parent": None, "style": "abc"})
         desc["prods"].append({"name": "PU", "parent": "AU", "fields": [["f0", ["int"]]], "dataclass": True})
@@ -411,6 +427,68 @@ FIXED.append(
         "start": "Stmt",
     },
 )
+
+
+FIXED.append(
+    {  # refinements whose repr() coincides although their parameters differ (alphabet / probability matrix)
+        "name": "fx_lookalikes",
+        "abstracts": [{"name": "R", "parent": None, "style": "abc"}],
+        "prods": [
+            {"name": "Dna", "parent": "R", "fields": [["s", ["ann", ["str"], ["StringSizeBetween", 2, 4, "ACGT"]]]]},
+            {"name": "Bits", "parent": "R", "fields": [["s", ["ann", ["str"], ["StringSizeBetween", 2, 4, "01"]]]]},
+            {"name": "W1", "parent": "R", "fields": [["w", ["ann", ["str"], ["WeightedString", [[1.0, 0.0], [1.0, 0.0]], ["a", "c"]]]]]},
+            {"name": "W2", "parent": "R", "fields": [["w", ["ann", ["str"], ["WeightedString", [[0.0, 1.0], [0.0, 1.0]], ["a", "c"]]]]]},
+            {"name": "Both", "parent": "R", "fields": [["x", ["ref", "R"]], ["t", ["ann", ["str"], ["StringSizeBetween", 2, 4, "xyz"]]], ["u", ["list", ["ann", ["str"], ["StringSizeBetween", 2, 4, "01"]]]]]},
+            {"name": "Nil", "parent": "R", "fields": []},
+        ],
+        "start": "R",
+    },
+)
+
+
+def retyped(desc: dict, rng) -> dict | None:
+    """A copy of the descriptor in which ONE field of one production is declared differently (the documented idiom
+    `Prod.__init__.__annotations__[field] = NewType` followed by a new extraction). None if nothing suitable."""
+    import copy
+
+    d = copy.deepcopy(desc)
+    cands = []
+    leafs = [p["name"] for p in d["prods"] if not p["fields"]]
+    for p in d["prods"]:
+        depended_on = {g[1][2] for g in p["fields"] if g[1][0] == "dep"}
+        for f in p["fields"]:
+            t = f[1]
+            if f[0] in depended_on:
+                continue  # a sibling's refinement is computed from this field: re-declaring it would be a user error
+            if t == ["int"]:
+                cands.append((f, ["float"]))
+            elif t == ["float"] or t == ["bool"]:
+                cands.append((f, ["int"]))
+            elif t[0] == "ann" and t[1] == ["int"] and t[2][0] == "IntRange":
+                cands.append((f, ["ann", ["int"], ["IntRange", t[2][2] + 5, t[2][2] + 7]]))
+                cands.append((f, ["ann", ["float"], ["FloatRange", 0.5, 1.5]]))
+            elif t[0] == "ann" and t[1] == ["str"] and t[2][0] == "VarRange":
+                cands.append((f, ["ann", ["str"], ["VarRange", ["p", "q"]]]))
+            elif t[0] == "ref" and leafs and any(a["name"] == t[1] for a in d["abstracts"]):
+                cands.append((f, ["ref", rng.choice(leafs)]))  # narrowed from an abstract type to one concrete production
+    if not cands:
+        return None
+    f, nt = rng.choice(cands)
+    f[1] = nt
+    d["name"] = desc["name"] + "~retyped"
+    return d
+
+
+def apply_retype(built: Built, desc2: dict) -> Built:
+    """Re-declares the changed fields on the EXISTING classes (same class objects, new annotations)."""
+    for p_old, p_new in zip(built.desc["prods"], desc2["prods"]):
+        cls = built.ns[p_new["name"]]
+        for (fn, t_old), (_, t_new) in zip(p_old["fields"], p_new["fields"]):
+            if t_old != t_new:
+                cls.__init__.__annotations__[fn] = build_type(t_new, built.ns)
+                if p_new.get("dataclass", True) and hasattr(cls, "__annotations__"):
+                    cls.__annotations__[fn] = cls.__init__.__annotations__[fn]
+    return Built(desc2, built.module, built.ns, built.classes, built.start, {p["name"]: [(fn, ft) for fn, ft in p["fields"]] for p in desc2["prods"]})
 
 
 def family(seed: int, n: int, profile="general", with_fixed=True):
